@@ -9,3 +9,4 @@ void reg_parser();
 void reg_sock();
 void reg_srv();
 void reg_copier();
+void reg_auth();
